@@ -104,6 +104,10 @@ func execBrd(o *Out, id, line string) {
 	if cls != "eof" && cls != "corrupt" && cls != "ueof" {
 		o.Violate("C09", "brotli.Reader failed with class "+cls+": "+err.Error(), "class-"+cls, line)
 	}
+	memOracle(o, line, "brotli", 16<<20, 4096, len(in), func() int {
+		zr, _ := brotli.NewReader(bytes.NewReader(in), nil)
+		return drain(zr)
+	})
 	lout, lerr := libBrotliAll(in)
 	switch {
 	case (lerr == nil) != (err == nil):
